@@ -43,3 +43,13 @@ Definition check (c : case) : nat :=
                                      && c20_ok g false d && c20_ok g true t
                  | _, _ => false end)) 2
   end.
+
+(* use-site batch: the runner's per-test cyclic-garbage report (--gc-after-test -vvvv) on object graphs built by a test.
+   The graph handed to DiGraph there is the part of the test's graph that the collector found (everything reachable from a
+   cycle); its cyclic components are those of the whole graph, which is what the report has to list. *)
+Definition check_use (c : case) : nat :=
+  match apply_ops empty_graph (ops c) with
+  | None => 1
+  | Some g => bit (negb (agree_run g false (r_def c))) 1
+              + bit (negb (match r_def c with Some d => c20_ok g false d | None => false end)) 2
+  end.
